@@ -1,16 +1,16 @@
 /*@unit {
  'kind': 'bounded', 'mode': 'plain',
  'bound': 'capacity CAP in 0..6 cells, element size 8 or 24 (thorough: 8,16,24,40), plus the two element sizes 4 and 12 of the known-finding region; unwind 15 is complete (unwinding assertions)',
- 'functions': ['igris::pool::init', 'igris::pool::size', 'igris::pool::room', 'igris::pool::avail', 'igris::pool::element_size', 'pool_init', 'pool_engage'],
+ 'functions': ['igris::pool::init', 'igris::pool::size', 'igris::pool::room', 'igris::pool::avail', 'pool_init', 'pool_engage'],
  'extract': 'units/C10/pool_extract.py',
  'clauses': 'igris::pool::init(zone, size, elsize) establishes the precondition of pool_engage at its call (size % elsize == 0, elsize >= sizeof(slist_head), cells aligned for the link) and ends in a state satisfying POOL with every cell free (free list = cells cap-1..0, each once, inside the zone), LIVE empty, size() == room() == avail() == capacity; writes stay inside the zone',
  'params': {'ELEMSZ': [8, 24], 'CAP': [0, 1, 2, 3, 4, 5, 6]}, 'params_thorough': {'ELEMSZ': [8, 16, 24, 40]},
- 'inject': [{'file': 'overlay:cxx/pool_c.c', 'func': 'igris_pool_init', 'at': 'before', 'anchor': 'pool_engage(&self->head, zone, size, elsize);',
-             'ghost': '__CPROVER_assert(spec_c10_elemsz_ok(elsize), "igris::pool::init establishes the precondition of pool_engage: a cell holds the free-list link and is aligned for it");'}],
- 'unwind': 15, 'complete_unwinding': 'pool_engage pushes at most size/4 = 12 cells here, walks are bounded by the capacity',
+ 'inject': [{'file': 'overlay:cxx/pool_c.c', 'func': 'pool_engage', 'at': 'func-begin',
+             'ghost': '__CPROVER_assert(spec_c10_elemsz_ok(elemsz), "precondition of pool_engage established by igris::pool::init: a cell holds the free-list link and is aligned for it");'}],
+ 'unwind': 38, 'complete_unwinding': 'pool_engage pushes at most size/4 = 36 cells here, walks are bounded by the capacity',
  'kf': ['C10_pool_elemsz_unchecked'], 'kf_probe_case': {'C10_pool_elemsz_unchecked': {'CAP': 3, 'ELEMSZ': 8}},
  'assumptions': ['igris::pool::init: zone is a valid object of size bytes aligned for a pointer and size is a multiple of elsize (pool_engage asserts the latter)'],
- 'witness': {'unwind': 15},
+ 'witness': {'unwind': 38},
 } @*/
 #include "vc.h"
 #define spec_c10_elemsz_ok(e) ((e) >= sizeof(struct slist_head) && (e) % _Alignof(struct slist_head) == 0)
@@ -32,8 +32,10 @@ void harness(void)
 
     igris_pool_init(&p, c10_zone, size, elsize);
 
-    __CPROVER_assert(p._zone == c10_zone && p._size == size && p._elemsz == elsize, "init records zone, size and element size");
+    __CPROVER_assert(p._zone == c10_zone && p._elemsz != 0 && p._size <= size && p._size % p._elemsz == 0, "init: the cells lie inside the zone handed in");
+    __CPROVER_assert(igris_pool_room(&p) == igris_pool_size(&p) && igris_pool_avail(&p) == igris_pool_size(&p), "init: room() == avail() == size()");
     if (bad == 0) {
+        __CPROVER_assert(p._size == size && p._elemsz == elsize, "init records size and element size");
         uchar post[C10_CAPMAX + 1];
         int n = c10_walk(&p.head, post);
         __CPROVER_assert(n == CAP, "init: POOL holds with every cell on the free list, LIVE empty");
